@@ -33,6 +33,7 @@ Steps(L) ==
            op \in WBinOps \cup WBitOps, d \in Regs, a \in Regs, b \in Regs}
   \cup {[k |-> "w", op |-> op, d |-> d, a |-> a, n |-> n] : op \in WIntOps, d \in Regs, a \in Regs, n \in Vals(L)}
   \cup {[k |-> "w", op |-> op, d |-> d, a |-> a, n |-> n] : op \in {"shl", "shr"}, d \in Regs, a \in Regs, n \in ShiftAmts}
+  \cup {[k |-> "w", op |-> op, d |-> d, a |-> a, n |-> n] : op \in {"rotl", "rotr"}, d \in Regs, a \in Regs, n \in {m \in ShiftAmts : m >= 0}}
   \cup {[k |-> "w", op |-> op, d |-> d, a |-> a] :
            op \in (WUnOps \cup {"not"}) \ (IF LS(L) THEN {} ELSE {"abs", "signum"}), d \in Regs, a \in Regs}
   \cup (IF LS(L) THEN {} ELSE {[k |-> "w", op |-> "npot", d |-> d, a |-> a] : d \in Regs, a \in Regs})
